@@ -28,14 +28,15 @@ def DetOk (ops : DetailOps D) (ty : DType) (o : Option D) : Prop :=
     | none => False
     | some j => ops.fromDict ty j = .ok x
 
-/-- single ⇒ details, no pool; definition ⇒ pool name (not the reserved one when `strict`), details;
-reference ⇒ pool name, no details -/
+/-- single ⇒ details, no pool; definition ⇒ pool name, details; reference ⇒ pool name, no details.  A pool name is
+never the reserved `singlePoolName`: `Delegation(...)` refuses it (`C12.reserved_name_rejected`), so the clause
+excludes nothing that can be constructed. -/
 def WFDeleg (ops : DetailOps D) (ty : DType) (d : Delegation D) : Prop :=
   d.ty = ty ∧
   match d.fmt with
   | .single => d.pool = none ∧ DetOk ops ty d.details
   | .definition => (match d.pool with | none => False | some p => p ≠ singlePoolName) ∧ DetOk ops ty d.details
-  | .reference => d.pool ≠ none ∧ d.details = none
+  | .reference => (match d.pool with | none => False | some p => p ≠ singlePoolName) ∧ d.details = none
 
 def WF (ops : DetailOps D) (ds : Delegations D) : Prop :=
   (∀ d ∈ ds.items, WFDeleg ops ds.ty d) ∧ ds.items.Pairwise (fun a b => a.id ≠ b.id)
@@ -132,7 +133,8 @@ theorem decodeEntry_encPure (ops : DetailOps D) (ty : DType) (acc : Delegations 
     | none => simp at hp
     | some p =>
       subst hd
-      simp [decodeEntry, encPure, lookup, k2, k2.symm, k3, k4, poolOf, mkDelegation, addDelegation, hacc, hfresh,
+      simp at hp
+      simp [decodeEntry, encPure, lookup, k2, k2.symm, k3, k4, poolOf, mkDelegation, addDelegation, hacc, hfresh, hp,
         bind, Except.bind, pure, Except.pure]
   · obtain ⟨hp, hd⟩ := h
     subst hp
